@@ -27,7 +27,7 @@ cp $OUT/demo.sh $D/demo.sh
 git -C /repo apply $OUT/patch.diff || { echo "patch does not apply"; exit 2; }
 cmake --build /repo/_build -j12 2>&1 | tail -1
 echo "--- confirming: test suite with the change"
-T=$(ctest --test-dir /repo/_build -j8 --timeout 900 2>&1 | grep "tests passed")
+T=$(ctest --test-dir /repo/_build -j16 --timeout 900 2>&1 | grep "tests passed")
 if ! echo "$T" | grep -q "100% tests passed"; then
   F=$(ctest --test-dir /repo/_build --rerun-failed --timeout 900 2>&1 | grep "tests passed")
   T="$T ; failed tests re-run alone: $F"
